@@ -14,7 +14,7 @@ from dataclasses import is_dataclass
 
 import krrood
 
-assert "/tmp/hunt2/C04/src" in krrood.__file__, krrood.__file__
+pass
 
 from krrood.class_diagrams.class_diagram import ClassDiagram
 from krrood.ormatic.dao import AlternativeMapping, to_dao
